@@ -13,7 +13,8 @@ Mirrors
   * `Solve.forward` left-factor handling (concatenate `[Lᵀ | R]`, solve once, slice, multiply) → `solveForward`
   * `LowRankRootAddedDiagLinearOperator._solve` (Woodbury)                    → `woodbury`
   * `BlockDiag/BlockInterleaved._add_batch_dim / _remove_batch_dim` around the base solve → `blockDiagSolve`, `blockInterleavedSolve`
-  * `CholLinearOperator.inverse()` as written in /repo (flag flipped, factor not transposed) → `cholInverseSolveAsCoded`
+  * `CholLinearOperator.inverse()` → `cholInverseRoot` (current code: a RootLinearOperator of L⁻ᵀ resp. R⁻¹);
+    `cholInverseSolvePrevious` records the code before 05006ba (defect D09)
 -/
 import LinOp.Core.Basic
 
@@ -174,12 +175,19 @@ def cholSolve {n m : Nat} (upper : Bool) (T : Mat α n n) (B : Mat α n m) : Mat
   if upper then triSolve true T (triSolveT true T B)
   else triSolveT false T (triSolve false T B)
 
-/-- `CholLinearOperator(L).inverse().solve(B)` AS CODED in /repo: `Linv = root.inverse()` (a lower-triangular
-matrix for a lower root) is wrapped as `TriangularLinearOperator(Linv, upper=True)` inside
-`CholLinearOperator(·, upper=True)`, whose `solve` is `root._cholesky_solve(B, upper=True)` — the upper
-triangle of a LOWER-triangular `Linv` is read (defect D09). `linv` is the exact inverse factor. -/
-def cholInverseSolveAsCoded {n m : Nat} (rootUpper : Bool) (linv : Mat α n n) (B : Mat α n m) : Mat α n m :=
+/-- PREVIOUS CODE (before /repo commit 05006ba, defect D09): `CholLinearOperator(L).inverse()` wrapped
+`Linv = root.inverse()` (a lower-triangular matrix for a lower root) as `TriangularLinearOperator(Linv, upper=True)` inside
+`CholLinearOperator(·, upper=True)`, whose `solve` is `root._cholesky_solve(B, upper=True)` — the upper triangle of a
+LOWER-triangular `Linv` was read.  Kept only as a statement about that code; the current code is `cholInverseRoot`. -/
+def cholInverseSolvePrevious {n m : Nat} (rootUpper : Bool) (linv : Mat α n n) (B : Mat α n m) : Mat α n m :=
   cholSolve (!rootUpper) linv B
+
+/-- CURRENT CODE: `CholLinearOperator.inverse()` computes `Linv = self.root.inverse()` (`root.solve(eye)`: the stored flag
+picks the substitution) and returns `RootLinearOperator(Linv)` for an upper root, `RootLinearOperator(Linvᵀ)` for a lower
+one.  This is the root `B` handed to `RootLinearOperator` (so the operator is `B Bᵀ`). -/
+def cholInverseRoot [One α] {n : Nat} (rootUpper : Bool) (T : Mat α n n) : Mat α n n :=
+  let linv := triSolve rootUpper T (Mat.one : Mat α n n)
+  if rootUpper then linv else Mat.transpose linv
 
 /-- What the inverse operator's solve must return: `(A⁻¹)⁻¹ B = A B`, with `A = L Lᵀ` (lower) or `RᵀR` (upper). -/
 def cholInverseSolveSpec {n m : Nat} (rootUpper : Bool) (root : Mat α n n) (B : Mat α n m) : Mat α n m :=
